@@ -541,44 +541,33 @@ func checkC16(w *World, r *Report) {
 
 	r.Rule("R16.8", "identity closure: every identity derived (transitively) from the base is listed — identityValues appends each derived identity and descends into it unconditionally", 1)
 	r.guard("R16.8", func() {
-		cp := w.Pkg("compile")
-		m := w.Method("compile", "Compiler", "identityValues")
-		fd, _ := w.FuncDecl(m)
-		ok := false
-		ast.Inspect(fd.Body, func(x ast.Node) bool {
-			rs, isR := x.(*ast.RangeStmt)
-			if !isR {
-				return true
-			}
-			appends, recurses, conditional := false, false, false
-			for _, s := range rs.Body.List {
-				switch y := s.(type) {
-				case *ast.AssignStmt:
-					if len(y.Rhs) == 1 {
-						if ce, isC := y.Rhs[0].(*ast.CallExpr); isC {
-							if id, isI := ce.Fun.(*ast.Ident); isI && id.Name == "append" {
-								appends = true
-							}
-							if calleeOf(cp, ce) == m {
-								recurses = true
-							}
-						}
-					}
-				case *ast.IfStmt:
-					// a conditional skip of the append
-					ast.Inspect(y, func(z ast.Node) bool {
-						if b, isB := z.(*ast.BranchStmt); isB && b.Tok == token.CONTINUE {
-							conditional = true
-						}
-						return true
-					})
+		f := identityClosureFunc(w)
+		// on every round of the loop over the derived identities: one is made, appended, and descended into
+		ok := true
+		for _, want := range []func(c ssa.CallInstruction) bool{
+			func(c ssa.CallInstruction) bool {
+				g := c.Common().StaticCallee()
+				return g != nil && nm(g) == "NewIdentity"
+			},
+			func(c ssa.CallInstruction) bool {
+				bi, isB := c.Common().Value.(*ssa.Builtin)
+				if !isB || bi.Name() != "append" {
+					return false
 				}
-			}
-			if appends && recurses && !conditional {
-				ok = true
-			}
-			return true
-		})
+				// the list of identities, not an argument list
+				sl, isSl := c.Common().Args[0].Type().Underlying().(*types.Slice)
+				if !isSl {
+					return false
+				}
+				pt, isP := sl.Elem().(*types.Pointer)
+				return isP && strings.HasSuffix(pt.Elem().String(), "schema.Identity")
+			},
+			func(c ssa.CallInstruction) bool { return c.Common().StaticCallee() == f },
+		} {
+			found, every, _ := everyIterationCalls(f, want)
+			ok = ok && found && every
+		}
+		fd := f
 		r.Check(ok, "R16.8", "identityValues lists every derived identity", fd.Pos(), "append + descend for each child, no skip", "a derived identity can be skipped (e.g. de-duplicated by its unqualified name): identities with the same local name in different modules, and everything derived from the skipped one, are rejected by the identityref")
 	})
 }
@@ -766,4 +755,39 @@ func c16UnionMembersFunc(w *World) *ssa.Function {
 		panic(undecided{"Compiler.getTypes / makeUnion"})
 	}
 	return f
+}
+
+// identityClosureFunc: the function that lists the identities derived from a
+// base — Compiler.identityValues, or, when that is gone, the one function of
+// package compile that makes identities (schema.NewIdentity) and calls itself.
+func identityClosureFunc(w *World) *ssa.Function {
+	if m := w.TryMethod("compile", "Compiler", "identityValues"); m != nil {
+		if f := w.SSAFunc(m); f != nil {
+			return f
+		}
+	}
+	var found []*ssa.Function
+	for _, fn := range allFuncs(w.SSAPkg("compile")) {
+		if isTestFile(w, fn.Pos()) || fn.Blocks == nil {
+			continue
+		}
+		makes, recurses := false, false
+		for _, b := range fn.Blocks {
+			for _, in := range b.Instrs {
+				if c, ok := in.(ssa.CallInstruction); ok {
+					if g := c.Common().StaticCallee(); g != nil {
+						makes = makes || nm(g) == "NewIdentity"
+						recurses = recurses || g == fn
+					}
+				}
+			}
+		}
+		if makes && recurses {
+			found = append(found, fn)
+		}
+	}
+	if len(found) != 1 {
+		panic(undecided{"Compiler.identityValues (the function that lists the derived identities)"})
+	}
+	return found[0]
 }
